@@ -106,7 +106,8 @@ def gen_session(rnd, maxlen=60):
             moves = rnd.choice(["", "", " moves e2e4", " moves e2e4 e7e5 g1f3"]) if base == "startpos" else ""
             s.append(("position " + base + moves, dly))
             go = rnd.choice(["go depth 1", "go depth 4", "go depth 6", "go nodes 2000", "go movetime 20", "go wtime 300 btime 300 winc 10 binc 10",
-                             "go wtime 50 btime 50 movestogo 3", "go mate 2", "go infinite", "go ponder depth 4", "go ponder wtime 100 btime 100",
+                             "go wtime 50 btime 50 movestogo 3", "go wtime 300 btime 300 winc 1000 binc 1000", "go wtime 5000 btime 150 winc 2000 binc 2000",
+                             "go wtime 1 btime 1 winc 0 binc 0", "go wtime 80 btime 80 winc 500 binc 500 movestogo 1", "go mate 2", "go infinite", "go ponder depth 4", "go ponder wtime 100 btime 100",
                              "go depth 3 searchmoves e2e4 d2d4", "go", "go depth", "go wtime", "go infinite searchmoves"])
             s.append((go, dly))
         elif r < 0.34:
